@@ -93,16 +93,21 @@ struct array {
 
         owning_data_t & operator=(const owning_data_t & o)
         {
-            m_size = o.m_size;
-            m_ptr = std::make_unique<vector_t[]>(m_size);
+            std::unique_ptr<vector_t[]> ptr =
+                std::make_unique<vector_t[]>(o.m_size);
 
-            assert(m_size == 0 || m_ptr);
+            assert(o.m_size == 0 || ptr);
 
-            if (o.m_ptr && m_size > 0) {
+            if (o.m_ptr && o.m_size > 0) {
                 std::memcpy(
-                    m_ptr.get(), o.m_ptr.get(), m_size * sizeof(vector_t)
+                    ptr.get(), o.m_ptr.get(), o.m_size * sizeof(vector_t)
                 );
             }
+
+            m_size = o.m_size;
+            m_ptr = std::move(ptr);
+
+            return *this;
         }
 
         configuration_t get_configuration() const
